@@ -5,7 +5,7 @@ from vf.lazy import libx, common
 from vf.monitors import algos
 
 PROP = "C05"
-TECHNIQUE = ('runtime monitoring of the exact configurations (PuLP; CPLEX classes through a generic 0-1 ILP stand-in that records the model) against a 3^n subset-DP oracle with all minimisers; exhaustive model monitor for n<=4')
+TECHNIQUE = ('runtime monitoring of the exact configurations (PuLP; CPLEX classes through a generic 0-1 ILP stand-in that records the model) against a 3^n subset-DP oracle with all minimisers; exhaustive model monitor for n<=4; composite block oracle for 11-30 elements; critical scheme / dataset classes (D23 x S15, D25 x S17)')
 RULE = ("cases = dataset (D2-D4, D7, D9, D10: non-trivial components, sparse rankings; n<=7 quick, <=9 thorough; 6-7 % of "
         "the cases: 11-16 (thorough: -30) elements in ordered blocks, judged by the composite oracle ref.BlockOptimum = "
         "cross-block 'before' costs + per-block DP optima, applied only when the cost table shows 'before' to be a "
@@ -51,12 +51,17 @@ def gen_case(rng, ctx):
         cls, ds = gen.dataset(rng, cls="D23", n=rng.choice([4, 5, 6, 7]), mmax=6)
         ds = libx.normalise_raw(ds)
         return {"ds": ds, "scheme": gen.scheme(rng, "S15 S15 S15 S13")[1], "dcls": cls, "scls": "S15"}
+    if rng.random() < 0.02:
+        # a component held together by ties only around a perfectly balanced pair (gen D26)
+        cls, ds = gen.dataset(rng, cls="D26", n=rng.choice([3, 4, 5, 6]))
+        ds = libx.normalise_raw(ds)
+        return {"ds": ds, "scheme": gen.scheme(rng, "S1 S1 S2 S3")[1], "dcls": cls, "scls": "S1"}
     if rng.random() < 0.06:
         # every pair inverted as often as not, the decision left to who ranks whom, under schemes whose penalties for
         # unranked elements are 2^-20 of the others: costs equal up to a relative 1e-6 and different in fact
         cls, ds = gen.dataset(rng, cls="D25", n=rng.choice([3, 4, 5, 6]), mmax=6)
         ds = libx.normalise_raw(ds)
-        return {"ds": ds, "scheme": gen.scheme(rng, "S17 S17 S16")[1], "dcls": cls, "scls": "S17"}
+        return {"ds": ds, "scheme": gen.scheme(rng, "S17 S17 S16 S1 S1 S2 S3")[1], "dcls": cls, "scls": "S17"}
     if rng.random() < 0.25:
         # critical band: small pure cycles under a scheme whose tie cost sits around 1/3 .. 1/2 .. 1 of the inversion cost
         cls, ds = gen.dataset(rng, classes="D9 D9 D11", n=rng.choice([3, 3, 4, 5, 6]), mmax=6)
